@@ -123,12 +123,18 @@ func Analyze(o *Obs, p *pgen.Program) (*pgen.Model, *Report) {
 			prop := "C01"
 			what := fmt.Sprintf("stage call %s fork %s executed with args %s which no binding evaluation denotes; expected: %s",
 				f.CallPath, f.Dir, short(f.Args), strings.Join(expect, " ; "))
+			sig := "unexpected-exec:" + classify(p, f.CallPath)
 			if len(expect) == 0 {
 				prop = "C03"
 				what = fmt.Sprintf("stage call %s fork %s executed (args %s) although the call is disabled or has no fork for it",
 					f.CallPath, f.Dir, short(f.Args))
+				if m.IndepOfEmpty[f.CallPath] > 0 {
+					sig = "exec-in-empty-map:indep"
+					what = fmt.Sprintf("stage call %s fork %s executed (args %s) although an enclosing pipeline call is mapped over an empty or null collection; the stage's bindings do not depend on that map dimension",
+						f.CallPath, f.Dir, short(f.Args))
+				}
 			}
-			r.add(prop, "unexpected-exec:"+classify(p, f.CallPath), what, nil)
+			r.add(prop, sig, what, nil)
 		}
 		// fork count mismatch = C03
 	}
@@ -146,6 +152,9 @@ func Analyze(o *Obs, p *pgen.Program) (*pgen.Model, *Report) {
 			continue
 		}
 		if got := len(o.ByCall[cp]); got != expCount[cp] {
+			if got > expCount[cp] && got <= expCount[cp]+m.IndepOfEmpty[cp] {
+				continue // reported as exec-in-empty-map:indep
+			}
 			r.add("C03", "fork-count:"+classify(p, cp),
 				fmt.Sprintf("stage call %s: %d forks executed, %d expected (one per element/key/combination)", cp, got, expCount[cp]), nil)
 		}
@@ -456,16 +465,19 @@ func classify(p *pgen.Program, callPath string) string {
 // files).  It reads the files named by the observed outs.
 func CheckTopOuts(o *Obs, p *pgen.Program, m *pgen.Model, r *Report) {
 	top := p.Pipeline(p.Top.Callee)
-	outsPath := filepath.Join(o.Case.PsDir, top.Name, "fork0", "_outs")
-	raw, err := os.ReadFile(outsPath)
-	if err != nil {
-		r.add("C01", "top-outs-missing", "top-level _outs not readable: "+err.Error(), nil)
-		return
-	}
-	got, err := vrun.ParseJSON(raw)
-	if err != nil {
-		r.add("C13", "top-outs-invalid-json", "top-level _outs is not valid JSON: "+err.Error(), nil)
-		return
+	// The outputs as recorded before post-processing rewrote file paths.
+	got := o.Case.PrePostprocessOuts()
+	if got == nil {
+		outsPath := filepath.Join(o.Case.PsDir, top.Name, "fork0", "_outs")
+		raw, err := os.ReadFile(outsPath)
+		if err != nil {
+			r.add("C01", "top-outs-missing", "top-level _outs not readable: "+err.Error(), nil)
+			return
+		}
+		got, err = vrun.ParseJSON(raw)
+		if err != nil {
+			return // C13 reports invalid JSON
+		}
 	}
 	gm, _ := got.(map[string]interface{})
 	tokOf := map[string]string{} // canonical producer value -> token
@@ -484,6 +496,14 @@ func CheckTopOuts(o *Obs, p *pgen.Program, m *pgen.Model, r *Report) {
 }
 
 func compareTop(o *Obs, p *pgen.Program, r *Report, where string, t *pgen.Type, exp, got interface{}, tokOf map[string]string) {
+	if gm, ok := got.(map[string]interface{}); ok {
+		_, a := gm["merge_over"]
+		_, b := gm["merge_value"]
+		if a && b {
+			r.add("C01", "top-out-unresolved-merge-exp", fmt.Sprintf("top-level output %s was recorded as an unresolved merge expression %s; bindings denote %s", where, short(got), short(exp)), nil)
+			return
+		}
+	}
 	switch e := exp.(type) {
 	case pgen.Unknown:
 		return
@@ -516,12 +536,13 @@ func compareTop(o *Obs, p *pgen.Program, r *Report, where string, t *pgen.Type, 
 		}
 		gs, ok := got.(string)
 		if !ok {
-			r.add("C04", "final-file-lost", fmt.Sprintf("top-level file output %s is %s but the producer wrote %s", where, short(got), es), nil)
+			r.add("C01", "top-out-value", fmt.Sprintf("top-level file output %s is %s but the bindings denote the file %s", where, short(got), es), nil)
 			return
 		}
-		fc := readTok(gs)
-		if fc != tok {
-			r.add("C04", "final-file-content", fmt.Sprintf("top-level file output %s at %s has token %q, producer wrote %q (%s)", where, gs, fc, tok, es), nil)
+		if cs := o.CanonString(gs); cs != es {
+			if fc := readTok(gs); fc != tok {
+				r.add("C01", "top-out-value", fmt.Sprintf("top-level file output %s = %s (%s), bindings denote %s", where, gs, cs, es), nil)
+			}
 		}
 	case pgen.KArray:
 		ea, ok1 := exp.([]interface{})
